@@ -594,6 +594,11 @@ FINDINGS = _build() + [
          pattern=dict(check="fixpoint", fmt="docstring", style={"in": ["google", "numpydoc"]}, field="default", default_kind="str", expected="str", observed="int", typ_class="int", round=2),
          what="[R-trigger-type-recasts-default] 'integer' in the description makes the emitter write the type int; round 2 casts the string default '5' to the int 5",
          site="cdd/docstring/utils/parse_utils.py:parse_adhoc_doc_for_typ + cdd/shared/defaults_utils.py:_parse_out_default_and_doc", example="{'alpha': {'typ': 'str', 'doc': 'an integer count', 'default': '5'}} through docstring-google twice"),
+    dict(id="C08-optional-trigger-uncasts-int-default-under-float", property="C08",
+         pattern=dict(check="fixpoint", fmt="docstring", style={"in": ["google", "numpydoc"]}, field="default", default_kind="float", expected="float", observed="int", typ_class="Optional", round=2),
+         what="[R-trigger-type-recasts-default] a description starting with 'Optional' wraps the declared type float into Optional[float] on round 1 (where the int default 2 is still cast to 2.0 under the "
+              "plain float); on round 2 the cast no longer applies under the Optional[...] type and the default written '2' comes back as the int 2",
+         site="cdd/shared/docstring_parsers.py:_set_name_and_type_handle_doc_in_param + cdd/shared/defaults_utils.py:_parse_out_default_and_doc", example="{'alpha': {'typ': 'float', 'doc': 'Optional timeout in seconds', 'default': 2}} through docstring-google twice"),
     dict(id="C08-listof-trigger-evaluates-value-like-string-default", property="C08",
          pattern=dict(check="fixpoint", fmt={"in": ["class", "pydantic"]}, style="rest", field="default", default_kind="str", expected="str", observed={"in": ["int", "float", "bool"]}, typ_class="list", round=2),
          what="[R-class-listof-trigger] 'list of' in the description turns the type into list on round 1; a string default whose text reads as a number or a bool ('5', '0.5', 'True') is then rendered as code and comes back as that value on round 2",
